@@ -17,7 +17,16 @@ import (
 	"go/types"
 )
 
-const repoDir = "/repo"
+// repoDir is /repo for every registered check; VERIF_REPO redirects a run to a
+// scratch worktree (used only to evaluate seeded changes without touching /repo).
+var repoDir = envOr("VERIF_REPO", "/repo")
+
+func envOr(k, d string) string {
+	if v := os.Getenv(k); v != "" {
+		return v
+	}
+	return d
+}
 const modPath = "github.com/gammazero/nexus/v3"
 
 func goEnv() []string {
